@@ -327,7 +327,17 @@ fn main() {
         let all = ex.states.len() <= if thorough { 3000 } else { 200 };
         let rights: Vec<qf::St> = if all { ex.states.clone() } else { ex.states.iter().filter(|s| s.set.count_ones() <= 2).cloned().collect() };
         let lefts: Vec<qf::St> = if all || thorough || ex.states.len() < 5000 { ex.states.clone() } else { ex.states.iter().filter(|s| s.set.count_ones() <= 5).cloned().collect() };
-        let (ps, pv) = qf::pair_sweep(&model, &lefts, &rights, true, n_threads());
+        let (mut ps, mut pv) = qf::pair_sweep(&model, &lefts, &rights, true, n_threads());
+        if !all {
+            // the converse sweep: small left operand x EVERY reachable right operand, so that big
+            // clusters (many runs, wrap-around) are walked by union's transfer loop
+            let small: Vec<qf::St> = ex.states.iter().filter(|s| s.set.count_ones() <= if thorough { 2 } else { 1 }).cloned().collect();
+            let (ps2, pv2) = qf::pair_sweep(&model, &small, &ex.states, true, n_threads());
+            ps.pairs += ps2.pairs;
+            ps.ok += ps2.ok;
+            ps.comparisons += ps2.comparisons;
+            pv.extend(pv2);
+        }
         qn += ps.pairs + ps.comparisons;
         let mut tn = 0;
         if ex.states.len() <= 200 {
@@ -360,7 +370,7 @@ fn main() {
     }
     let cres = par_map(&ccf, n_threads(), |cfg| {
         let cm = CfModel::new(cfg.clone(), Mode::Classes, true).unwrap();
-        let cex = cuckoo::explore(&cm, true, 3_000_000, 1);
+        let cex = cuckoo::explore(&cm, true, 400_000, 1);
         if !cex.viols.is_empty() {
             return (cuckoo::PairStats::default(), vec![]);
         }
